@@ -22,7 +22,7 @@ def thorough_selftest(chk, pid, repo):
     res = {"variants": len(vs), "as_expected": 0, "not_as_expected": [], "unlocated": []}
     with cf.ThreadPoolExecutor(max_workers=16) as ex:
         for v, status, err, out in ex.map(st.run_one, vs):
-            if status in ("CAUGHT", "SILENT"):
+            if status in ("CAUGHT", "SILENT", "INCONCL-OK"):
                 res["as_expected"] += 1
             elif status == "UNLOCATED":
                 res["unlocated"].append(v["id"])
@@ -32,6 +32,29 @@ def thorough_selftest(chk, pid, repo):
     chk.note("selftest on scratch copies of the current tree: %d variants (%d breaking, %d twins): %d as expected, %d construct not located, %d not as expected %s"
              % (len(vs), sum(1 for v in vs if v["kind"] == "break"), sum(1 for v in vs if v["kind"] == "twin"), res["as_expected"],
                 len(res["unlocated"]), len(res["not_as_expected"]), res["not_as_expected"][:6]))
+
+
+def api_rule(chk, pid):
+    """R-API (every property): the entry points the property is observed at keep the positional order of the parameters they had on the
+    pinned tree (a positional caller is rebound silently by a swap or by a new parameter in front)."""
+    import re
+    quals = []
+    with open(os.path.join(VERIF, "properties.jsonl"), encoding="utf-8") as fh:
+        for line in fh:
+            d = json.loads(line)
+            if d["id"] != pid:
+                continue
+            for s_ in d["anchors"].get("observe_at") or []:
+                for m in re.finditer(r"eqsig(?:\.\w+)+", s_):
+                    q = m.group(0)
+                    cands = [q, q.replace("eqsig.AccSignal", "eqsig.single.AccSignal").replace("eqsig.Signal", "eqsig.single.Signal")]
+                    for c in cands:
+                        if c in chk.P.functions and c not in quals:
+                            quals.append(c)
+    if quals:
+        chk.rule("R-API", "the observed entry points keep the positional order of their parameters (positional callers are rebound silently otherwise)")
+        from .tyob import positional_order
+        positional_order(chk, "R-API", quals)
 
 
 def main(argv=None):
@@ -48,6 +71,7 @@ def main(argv=None):
         mod = importlib.import_module("sa.props." + pid.lower())
         chk = Check(pid, a.tier, P)
         mod.run(chk)
+        api_rule(chk, pid)
         if a.replay:
             with open(a.replay) as f:
                 rep = json.load(f)
